@@ -28,10 +28,68 @@ def prepare_process():
     from sim import seams
 
     seams.assert_repo()
+    warm_zygote()
     seams.install_dirty()
     seams.capture_logs()
     seams.register_sim_functions()
+    import gc
+
+    gc.collect()
+    gc.freeze()  # keep the zygote's objects out of the children's collections (less copy-on-write per fork)
     _READY["done"] = True
+
+
+def warm_zygote():
+    """Load everything that is imported lazily (I/O back ends, plug-in discovery, YAML, numba
+    kernels) once, in the worker, so that forked scenario children do not pay for it each time.
+    Only imports and plain third-party calls: no ioos_qc test, stream, collector or parser runs here."""
+    import io
+    import tempfile
+
+    import numpy as np
+    import pandas as pd
+    import xarray as xr
+    from ruamel.yaml import YAML
+
+    import ioos_qc.argo  # noqa: F401
+    import ioos_qc.axds  # noqa: F401
+    import ioos_qc.config  # noqa: F401
+    import ioos_qc.config_creator  # noqa: F401
+    import ioos_qc.qartod  # noqa: F401
+    import ioos_qc.results  # noqa: F401
+    import ioos_qc.stores  # noqa: F401
+    import ioos_qc.streams  # noqa: F401
+
+    try:
+        t = pd.date_range("2001-01-01", periods=3, freq="D")
+        ds = xr.Dataset({"v": ("time", np.arange(3.0))}, coords={"time": t})
+        with tempfile.TemporaryDirectory(prefix="ioosqc-warm-") as d:
+            p = os.path.join(d, "w.nc")
+            ds.to_netcdf(p, engine="scipy", format="NETCDF3_64BIT")
+            xr.open_dataset(p, decode_cf=False).close()
+            xr.open_dataset(p).close()
+            xr.load_dataset(p)
+        ds["v"].sel(time=slice(t[0], t[1]))
+        ds.swap_dims({"time": "time"})
+        y = YAML(typ="safe")
+        buf = io.StringIO()
+        y.dump({"a": [1, 2.5, "x"]}, buf)
+        y.load(buf.getvalue())
+        s = pd.Series([1.0, 2.0, 3.0], index=t)
+        s.rolling("2D").std()
+        pd.DataFrame({"a": [1.0]}).loc[:, ["a"]]
+        from geographiclib.geodesic import Geodesic
+
+        Geodesic.WGS84.Inverse(0.0, 0.0, 1.0, 1.0)
+        from scipy.interpolate import CubicSpline
+
+        CubicSpline([0, 1, 2], [0.0, 1.0, 0.0], bc_type="periodic")
+        import jsonschema
+
+        jsonschema.validate({"a": 1}, {"type": "object"})
+        import shapely.geometry  # noqa: F401
+    except Exception:  # noqa: BLE001 - warm-up is an optimisation only
+        pass
 
 
 def generate(prop, verif_seed, index, tier):
@@ -45,6 +103,12 @@ def generate(prop, verif_seed, index, tier):
 
 
 def execute(scn):
+    """Hermetic execution of one scenario (forked child of this process)."""
+    from sim import hermetic
+
     prepare_process()
     mod = prop_module(scn["property"])
-    return mod.execute(scn)
+    out = hermetic.execute(mod, scn)
+    out.pop("_dirty_allocs", None)
+    out.pop("_logs", None)
+    return out
